@@ -6,6 +6,11 @@ from obl.dbimpl_flushgc import gc_obls, flush_obls
 #               the same obligations carry the C02.b, C03.d, C09.b and C12.a assertions
 OBLIGATIONS = gc_obls("a") + flush_obls("c")
 
+# b: the live set covers every file of every version still in the list, on every level (real
+# ldb_versions_add_files / version ref-unref / append_version)
+from obl.vset_more import versionlist_obls
+OBLIGATIONS += versionlist_obls("b")
+
 META = {
     "level": "model_checking",
     "level_text": "Bounded model checking (CBMC) of the real garbage collector ldb_remove_obsolete_files() and of the real memtable-flush path ldb_background_call() -> ldb_background_compaction() -> ldb_compact_memtable() -> ldb_write_level0_table() -> ldb_remove_obsolete_files() (db_impl.c #included, so the static functions themselves are executed) from arbitrary well-formed states. The set of unlinked directory entries is compared with an independent reference of the keep rules (foreign names, CURRENT, LOCK, LOG kept; log removed iff number < log_number and != prev_log_number; MANIFEST removed iff number < manifest_file_number; table/temp removed iff not in live U pending_outputs), removed tables are evicted, nothing is touched after a latched error, unlinking happens only with the mutex released. In the flush the new table's number is fresh, is in pending_outputs before and during ldb_build_table(), survives a collection that runs during the build, is never unlinked, no collection happens between the erase from pending_outputs and the install, and obsolete files are collected only after the edit was applied.",
